@@ -34,6 +34,11 @@ def make_program(rnd):
         prog['suppliers'].append((countries[a]['code'], countries[a]['roles']['good'], countries[b]['code'], countries[b]['roles']['bus'],
                                   round(rnd.uniform(0.05, 0.4), 3)))
         prog['rates'] = [(c['currency'], '[%r]*40' % round(rnd.uniform(0.5, 2.0), 3)) for c in countries]
+    if rnd.random() < 0.6:
+        # any declaration order (constructors take codes, not objects): discovery loops must not depend on where a sector sits in the zone list
+        order = [(ci, si) for ci, c in enumerate(prog['countries']) for si in range(len(c['sectors']))]
+        rnd.shuffle(order)
+        prog['order'] = order
     return prog
 
 
